@@ -83,6 +83,19 @@ CHECKS = {
             "between repeated queries, plus random full-size near-containment pairs; TLC (Trace_Shadow) parses both "
             "entries from the input tokens and judges soundness, monotonicity and skip-order independence.",
             "7 (C03)"),
+    "C01": ("model_checking",
+            "TLA+ spec (AceText: independent reader / writer of ACE syntax over typed tokens; Names, PortSem, AddrSem) "
+            "model-checked by TLC (reader inverts writer); recorded constructions of real Ace objects validated by TLC "
+            "from the input tokens",
+            "The state space explored for C01 is the input grammar: TLC checks on 30 420 abstract entries x 2 platforms "
+            "that the specification's reader inverts its writer and only accepts platform-valid text; the harness "
+            "assembles seeded ACE texts over the full-size grammar (all protocol spellings, address spellings incl. "
+            "non-contiguous / dirty / foreign, all operators with names of the platform-version table, up to 10 "
+            "operands, flags, logs, sequence numbers to 2^32-1, whitespace) and constructs real Ace objects (also by "
+            "re-assigning .line on an object that held another entry) for every platform, version table and switch "
+            "setting; TLC (Trace_C01) reads the INPUT tokens itself and compares every typed field, the expanded "
+            "networks and the meaning / nativeness / switch conformance of the rendered line.",
+            "7 (C01)"),
 }
 
 NOT_YET = {
